@@ -479,7 +479,12 @@ func (f *memFile) Seek(offset int64, whence int) (int64, error) {
 // recOS implements ros.OS method by method (no embedding, so the compiler proves the list is complete):
 // log the call with its arguments, then let risor's VirtualOS (mounted on memFS) answer.
 type recOS struct {
-	tag    byte
+	// decline: the host's OS has nothing to say about users, groups, the host name and the standard
+	// directories - every such query is logged and answered with an error - while its environment names
+	// accounts that exist on the real machine (USER=root). An implementation that "helps" with a fallback
+	// to the real operating system shows real data where the supplied OS gave none.
+	decline bool
+	tag     byte
 	in     *inst
 	v      *ros.VirtualOS
 	fs     memFS
@@ -595,12 +600,27 @@ func (o *recOS) Environ() []string { o.in.add("Environ()"); return o.v.Environ()
 func (o *recOS) Exit(code int)     { o.in.add("Exit(%d)", code); o.v.Exit(code) }
 func (o *recOS) Getenv(key string) string {
 	o.in.add("Getenv(%q)", key)
+	if o.decline && (key == "USER" || key == "LOGNAME" || key == "USERNAME") {
+		return "root"
+	}
 	return o.v.Getenv(key)
 }
 func (o *recOS) Getpid() int               { o.in.add("Getpid()"); return o.v.Getpid() }
 func (o *recOS) Getuid() int               { o.in.add("Getuid()"); return o.v.Getuid() }
-func (o *recOS) Getwd() (string, error)    { o.in.add("Getwd()"); return o.v.Getwd() }
-func (o *recOS) Hostname() (string, error) { o.in.add("Hostname()"); return o.v.Hostname() }
+func (o *recOS) Getwd() (string, error) {
+	o.in.add("Getwd()")
+	if o.decline {
+		return "", errDeclined
+	}
+	return o.v.Getwd()
+}
+func (o *recOS) Hostname() (string, error) {
+	o.in.add("Hostname()")
+	if o.decline {
+		return "", errDeclined
+	}
+	return o.v.Hostname()
+}
 func (o *recOS) LookupEnv(key string) (string, bool) {
 	o.in.add("LookupEnv(%q)", key)
 	return o.v.LookupEnv(key)
@@ -618,12 +638,28 @@ func (o *recOS) Unsetenv(key string) error {
 	o.in.add("Unsetenv(%q)", key)
 	return o.v.Unsetenv(key)
 }
-func (o *recOS) UserCacheDir() (string, error) { o.in.add("UserCacheDir()"); return o.v.UserCacheDir() }
+func (o *recOS) UserCacheDir() (string, error) {
+	o.in.add("UserCacheDir()")
+	if o.decline {
+		return "", errDeclined
+	}
+	return o.v.UserCacheDir()
+}
 func (o *recOS) UserConfigDir() (string, error) {
+	if o.decline {
+		o.in.add("UserConfigDir()")
+		return "", errDeclined
+	}
 	o.in.add("UserConfigDir()")
 	return o.v.UserConfigDir()
 }
-func (o *recOS) UserHomeDir() (string, error) { o.in.add("UserHomeDir()"); return o.v.UserHomeDir() }
+func (o *recOS) UserHomeDir() (string, error) {
+	o.in.add("UserHomeDir()")
+	if o.decline {
+		return "", errDeclined
+	}
+	return o.v.UserHomeDir()
+}
 func (o *recOS) Stdin() ros.File              { o.in.add("Stdin()"); return o.v.Stdin() }
 func (o *recOS) Stdout() ros.File             { o.in.add("Stdout()"); return o.v.Stdout() }
 func (o *recOS) Stderr() ros.File             { o.in.add("Stderr()"); return o.v.Stderr() }
@@ -648,9 +684,20 @@ type vGroupT struct{ tag byte }
 func (vGroupT) Gid() string    { return vGid }
 func (g vGroupT) Name() string { return retag(vGroup, g.tag) }
 
-func (o *recOS) CurrentUser() (ros.User, error) { o.in.add("CurrentUser()"); return vUserT{o.tag}, nil }
+var errDeclined = fmt.Errorf("not available on this host OS")
+
+func (o *recOS) CurrentUser() (ros.User, error) {
+	o.in.add("CurrentUser()")
+	if o.decline {
+		return nil, errDeclined
+	}
+	return vUserT{o.tag}, nil
+}
 func (o *recOS) LookupUser(name string) (ros.User, error) {
 	o.in.add("LookupUser(%q)", name)
+	if o.decline {
+		return nil, errDeclined
+	}
 	if name == retag(vUser, o.tag) {
 		return vUserT{o.tag}, nil
 	}
@@ -658,6 +705,9 @@ func (o *recOS) LookupUser(name string) (ros.User, error) {
 }
 func (o *recOS) LookupUid(uid string) (ros.User, error) {
 	o.in.add("LookupUid(%q)", uid)
+	if o.decline {
+		return nil, errDeclined
+	}
 	if uid == fmt.Sprint(vUid) {
 		return vUserT{o.tag}, nil
 	}
@@ -665,6 +715,9 @@ func (o *recOS) LookupUid(uid string) (ros.User, error) {
 }
 func (o *recOS) LookupGroup(name string) (ros.Group, error) {
 	o.in.add("LookupGroup(%q)", name)
+	if o.decline {
+		return nil, errDeclined
+	}
 	if name == retag(vGroup, o.tag) {
 		return vGroupT{o.tag}, nil
 	}
@@ -672,6 +725,9 @@ func (o *recOS) LookupGroup(name string) (ros.Group, error) {
 }
 func (o *recOS) LookupGid(gid string) (ros.Group, error) {
 	o.in.add("LookupGid(%q)", gid)
+	if o.decline {
+		return nil, errDeclined
+	}
 	if gid == vGid {
 		return vGroupT{o.tag}, nil
 	}
